@@ -71,6 +71,21 @@ def main(tier):
                 elif not out.startswith("ok"):
                     run.violation("concurrent-run-crashed(race build)", {"case": line, "stdout": out[:300], "stderr": err[-1500:]})
             run.streams["conc-race"] = {"cases": n_race, "impl_only": True, "race_reports": races}
+        # ---- isolation over TIME as well: what a VM reports does not depend on which other VMs (with other settings) were used before it
+        #      in the same process — errors of a host stream parser's operand (CustomDiceStream.ReadExpr), ordinary syntax errors, rolls
+        from lib.common import go_child, hx as _hx
+        probes = [("E0,L30000", "spexpr", "R(2*"), ("E1,L30000", "spexpr", "R(2*"), ("E2,L30000", "spexpr", "R1 +* 2"), ("E0,L30000", "spexpr", "R`{1+}`"),
+                  ("E0,L30000", "-", "(1 +"), ("E1,L30000", "-", "[1,"), ("E2,L30000", "sphash", "#5 +"), ("E0,L30000", "spexpr", "R2d6 + (")]
+        befores = [("E2,L30000", "spexpr", "R1+2"), ("E1,L30000", "spexpr", "R(3*"), ("E2,L30000", "-", "1 +"), ("E1,L30000", "sphash", "#7"), ("E2,L30000", "spexpr", "R(")]
+        for pc, ps, psrc in probes:
+            alone = go_child(line_timeout=20).run([f"custom {pc} {1:032x} {ps} {_hx(psrc)}"])[0]
+            for bc, bs, bsrc in befores:
+                both = go_child(line_timeout=20).run([f"custom {bc} {2:032x} {bs} {_hx(bsrc)}", f"custom {pc} {1:032x} {ps} {_hx(psrc)}"])
+                run.evaluations += 1
+                run.nontriv(("after", pc, ps, psrc, bc, bs, bsrc))
+                if len(both) == 2 and both[1] != alone:
+                    run.violation("vm-differs-after-another-vm-was-used", {"probe": {"cfg": pc, "host": ps, "source": psrc}, "used_before": {"cfg": bc, "host": bs, "source": bsrc},
+                                                                           "alone": alone[:400], "after_the_other": both[1][:400]})
         run.sample({"oracle": "conc", "case": "conc <seed base> <goroutines> <iterations> <seeded>: own VM per goroutine, three languages, "
                                                "mixed flags, programs with builtin methods, functions, computed values, syntax errors"})
     return run.finish(
